@@ -3,6 +3,7 @@
 import json, sys, os
 V = os.path.dirname(os.path.dirname(os.path.abspath(__file__)))
 HOOK_COMMITS = ["cd80d8c"]
+FIX_COMMITS = ["19db2e0"]
 SIM_NOTE = ("Trusted base: the harness simulator (virtual clock + deterministic rand via the verif-hooks feature, simulated "
             "network whose per-packet fates are a pure function of (seed, link, per-link counter), strict request-executing game, "
             "30-line reference model of the delayed input stream) and proptest 1.11. Absence is not established: the claim is "
@@ -16,6 +17,9 @@ CHECKS = {
    text="For every AdvanceFrame request (first simulations and resimulations) of generated scenarios, every (value, status) pair is judged against the true input stream, the per-player connection status read through the hook accessor and the ledger of delivered frames; finality of confirmed frames and monotonicity of confirmed_frame() are checked on-line."),
  "C04": dict(cat="exploration", ref="§6 C04", technique="property-based testing with starvation schedules; window bound checked against accessor and network ledger; lockstep no-save/no-load/no-prediction invariants",
    text="Generated scenarios with windows 0..=12 (weighted to 0 and 1) in which one link is starved for up to 30 s (disconnect timeout raised); every first simulation is checked against the newest frame held for all connected players (accessor, and independently the ledger of delivered input frames), every load against the window, and lockstep sessions against the no-save/no-load/only-confirmed/stall-leaves-frame-unchanged rules, also through advance_frame_with_wait under an auto-ticking virtual clock."),
+ "C14": dict(cat="exploration", ref="§6 C14", technique="property-based round-trip testing (proptest + bounded-exhaustive small alphabets) and exhaustive/random decoder totality sweeps in supervised child processes with a counting allocator",
+   text="Round trip: 200k (quick) / 1.5M (thorough) generated (reference, sequence) pairs biased to 0x00/0xFF runs plus inputs up to 65535 bytes plus a bounded-exhaustive sweep over alphabet {00,01,80,FF}. Totality: every byte string of length <= 3 against three references and tens of millions of random/mutated strings are decoded by the real decoder inside child processes under RLIMIT_AS with a counting allocator; a panic, an abort (process death, attributed by bisection) or a peak allocation above 4x128x65537 bytes is a violation. The defect this found on the pinned tree was repaired by a fix: commit; its inputs are replayed as regression cases.",
+   note="Trusted base: proptest, the harness's counting global allocator and child-process supervisor; the codec is reached through the verif-hooks re-export of compression::{encode,decode}. The allocation bound (4 x 128 x (2+65535) bytes) is the harness's reading of 'a small multiple of what a legitimate packet can contain'."),
  "C13": dict(cat="exploration", ref="§6 C13", technique="bounded-exhaustive enumeration of SyncTest configurations and of perturbation placements (frame x simulation-index pattern) with a deterministic / deliberately non-deterministic game",
    text="Bounded-exhaustive: every builder configuration in players 1..=4 x window 1..=10 x check distance 0..=11 x delay {0,1,3,7} x sparse (invalid ones must be rejected, valid ones run 120 frames with a deterministic game and must never report a mismatch, with C02's executor and an input oracle), plus every placement of a non-deterministic step (frame F x which simulations of F differ) for check distances >= 2, where detection must come within check_distance+2 frames naming frame F+1. One genuine defect is recorded as a known finding (first-simulation-only non-determinism is never compared)."),
 }
